@@ -49,6 +49,19 @@ ALG_TVL = Algebra("tvl", TDD_SPEC, lambda v: 2 - v, [0, 1, 2], {"False": 0, "Unk
 NUMVALS = [math.nan, -math.inf, -2.0, 0.0, 1.0, 3.0, math.inf]
 ALG_NUM = Algebra("num", {k.capitalize(): v for k, v in NUM_OPS.items()}, None, NUMVALS, {})
 
+def tvl_ite(a, b, c):
+    """the three-valued if-then-else named in property C11 (F=0, U=1, T=2)"""
+    if b == c or a == 2:
+        return b
+    if a == 0:
+        return c
+    if a == b:
+        return max(a, c)     # or(a, c)
+    if a == c:
+        return min(a, b)     # and(a, b)
+    return 1
+
+
 QUANT = {
     "forall": lambda a, b: a & b, "exists": lambda a, b: a | b, "unique": lambda a, b: a ^ b,
 }
@@ -76,6 +89,10 @@ def ev_term(alg, t, val):
         a, b, c = (ev_term(alg, x, val) for x in t[1:4])
         if alg is ALG_BOOL:
             return tuple((x & y) | ((1 - x) & z) for x, y, z in zip(a, b, c))
+        if alg is ALG_TVL and all(isinstance(v, int) for v in a + b + c):
+            return tuple(tvl_ite(x, y, z) for x, y, z in zip(a, b, c))
+        if alg is ALG_NUM and all(isinstance(v, float) for v in a + b + c):
+            return tuple((y if x == 1.0 else z if x == 0.0 else ("ite?", x)) for x, y, z in zip(a, b, c))
         return tuple(("ite", x, y, z) for x, y, z in zip(a, b, c))
     if k == "quant":
         a = ev_term(alg, t[2], val)
